@@ -142,7 +142,12 @@ channel_release(struct channel* self)
 void
 channel_accept_writes(struct channel* self, uint32_t tf)
 {
+    // Change the flag under the lock: a writer that has just evaluated its
+    // wait condition but is not yet asleep would otherwise miss this
+    // notification and sleep forever.
+    lock_acquire(&self->lock);
     self->is_accepting_writes = tf;
+    lock_release(&self->lock);
     condition_variable_notify_all(&self->notify_space_available);
 }
 
